@@ -933,6 +933,7 @@ class Interp:
                 continue
             kw[a.arg] = (kwargs or {}).get(a.arg, Poly.atom(("v", "K_" + a.arg)))
         Event.prefix = ()
+        _load_class_constants(self.prog)
         return _interp_run_with_env(self, fi, full, kw, self_cls, {})
 
     def setter_names(self):
@@ -1037,6 +1038,11 @@ class Frame:
                 ast.fix_missing_locations(node_if)
                 return self.exec_stmt(node_if, st)
             r = self.eval(s.value, st)
+            if isinstance(s.value, ast.Call) and r is not None:
+                # f(..., out=x) as a statement writes its result into x: the local now denotes that result
+                for kw_ in s.value.keywords:
+                    if kw_.arg == "out" and isinstance(kw_.value, ast.Name) and kw_.value.id in st.env and isinstance(r, Poly):
+                        st.env[kw_.value.id] = r
             # `x.m(args)` as a statement on a locally created opaque object is called for its effect:
             # rebind the local to the updated object, so that later uses see that it was edited
             c = s.value
@@ -2561,6 +2567,35 @@ def _run_inlined(interp, fi, args, kwargs, self_cls, st):
 _USE_DEFAULT = object()
 
 
+CLASS_CONSTANTS = set()  # names bound in exactly one way in class bodies of the program under analysis (filled by Interp)
+
+
+def _load_class_constants(prog):
+    key = id(prog)
+    if getattr(_load_class_constants, "_done", None) == key:
+        return
+    _load_class_constants._done = key
+    bound, inst = {}, set()
+    for ci in prog.classes.values():
+        for st_ in ci.node.body:
+            if isinstance(st_, (ast.Assign, ast.AnnAssign)) and getattr(st_, "value", None) is not None:
+                for t in (st_.targets if isinstance(st_, ast.Assign) else [st_.target]):
+                    if isinstance(t, ast.Name):
+                        bound.setdefault(t.id, set()).add(ast.dump(st_.value))
+        for n in ast.walk(ci.node):
+            if isinstance(n, ast.Attribute) and isinstance(n.ctx, (ast.Store, ast.Del)):
+                inst.add(n.attr)
+    for m in prog.modules.values():
+        for n in ast.walk(m.tree):
+            if isinstance(n, ast.Attribute) and isinstance(n.ctx, (ast.Store, ast.Del)):
+                inst.add(n.attr)
+            if isinstance(n, ast.Call) and isinstance(n.func, ast.Name) and n.func.id == "setattr":
+                inst.add("*")
+    CLASS_CONSTANTS.clear()
+    if "*" not in inst or True:
+        CLASS_CONSTANTS.update(k for k, v in bound.items() if len(v) == 1 and k not in inst and k.isupper() or (len(v) == 1 and k not in inst and k.startswith("_") and k.upper() == k))
+
+
 def _interp_run_with_env(interp, fi, args, kwargs, self_cls, carried):
     node = fi.node
     params = [a.arg for a in node.args.posonlyargs + node.args.args]
@@ -2925,6 +2960,12 @@ class Valuation:
                 return float("-inf")
         if a in self.cache:
             return self.cache[a]
+        if t == "attr" and len(a) == 3 and a[2] in CLASS_CONSTANTS:
+            # a constant bound in a class body (never through an instance): the same value whichever object of the
+            # repository it is read from (`self._ROOT_NODE_NAME`, `subtree._ROOT_NODE_NAME`, `cls._ROOT_NODE_NAME`)
+            r = self.rand(("classconst", a[2]))
+            self.cache[a] = r
+            return r
         if t == "strcat":
             # the text denoted in this scenario: conditional pieces resolved, nested concatenations flattened,
             # adjacent literals merged — then one value per distinct text
@@ -2976,6 +3017,22 @@ class Valuation:
         if t == "elemk" and len(a) == 3:
             a2 = ("elem", a[1], a[2])
             r = self.atom(a2)
+            self.cache[a] = r
+            return r
+        tk = None
+        if t == "sub" and len(a) == 3 and isinstance(a[2], tuple) and a[2]:
+            tk = a[2]
+            if _is_polykey(tk):
+                ta = key_atom(tk)
+                tk = ta[1] if ta is not None and ta[0] == "val" and isinstance(ta[1], tuple) else None
+            if not (tk and tk[0] == "tuple" and len(tk) >= 3 and not any(_is_polykey(x) and (key_atom(x) or ("",))[0] == "slice" for x in tk[1:])):
+                tk = None
+        if tk is not None:
+            # X[i, j] names the same element as X[i][j] (all components plain positions, no slice)
+            cur = a[1]
+            for x in tk[1:]:
+                cur = Poly.atom(("sub", cur, x)).key()
+            r = self.atom(key_atom(cur))  # (the atom's own value, not its rounded image: both spellings must hash alike)
             self.cache[a] = r
             return r
         if t == "sub" and len(a) == 3:
